@@ -182,6 +182,23 @@ example : compile demo = some
 
 example : (runCode (fun _ _ => 0) 8 ((compile demo).getD []) 12) = ([(0, 5)], true) := by decide
 
+/-! block-local variables (modelled, executed and compared on every run, not covered by a theorem):
+    in `if a == 3 { var b; var c; … } else { var d; … }` the cells of `b`, `c` are released before the
+    `else` body is compiled, so `d` re-uses cell 1 — and the RAM the program needs is the maximum
+    over the whole program (3 cells), not the last cell handed out -/
+def demoBlocks : Prog :=
+  { decls := [false],
+    body := .seq (.assign 0 (.lit 3)) (.seq
+      (.ifElse (.eq (.var 0) (.lit 3))
+        (.seq (.decl 1) (.seq (.decl 2) (.seq (.assign 1 (.add (.var 0) (.lit 1)))
+          (.seq (.assign 2 (.mul (.var 1) (.lit 2))) (.seq (.iowrite 0 (.var 2)) .skip)))))
+        (.seq (.decl 3) (.seq (.assign 3 (.add (.var 0) (.lit 5))) (.seq (.iowrite 0 (.var 3)) .skip))))
+      (.seq (.iowrite 0 (.var 0)) .skip)) }
+
+example : allLocs demoBlocks = [.mem 0, .mem 1, .mem 2, .mem 1] ∧
+    ((compile demoBlocks).map List.length) = some 36 ∧
+    runCode (fun _ _ => 0) 8 ((compile demoBlocks).getD []) 40 = ([(0, 8), (0, 3)], true) := by decide
+
 /-- The full statement of semantic preservation for the modelled subset: for every program the
     model compiler accepts, every width, environment and loop fuel, the compiled program reaches —
     after some number of instructions — a state whose output list is exactly what `goEval`
